@@ -2,7 +2,7 @@
    one reply.  Statements only. *)
 From Coq Require Import ZArith String List Bool.
 From EL Require Import Base.Dec Base.PyLib Model.Worker Model.Grammar Proofs.C16Proofs Proofs.C18Proofs.
-From EL Require Import Gen.WorkerParallel Gen.SharedPath Gen.Spawner Gen.CacheCmd.
+From EL Require Import Gen.WorkerParallel Gen.SharedPath Gen.Spawner Gen.CacheCmd Gen.CacheParallel Gen.CacheBackend.
 Import ListNotations.
 Local Open Scope string_scope.
 Local Open Scope list_scope.
@@ -66,6 +66,42 @@ Theorem C18_file_mode_command :
     = Ok (strs (["mpiexec"; "-n"; dec cores] ++ [exe; ppar; file])).
 Proof. intros. rewrite execute_command_shape. rewrite H. reflexivity. Qed.
 Print Assumptions C18_file_mode_command.
+
+(* file mode, body of backend/cache_parallel.py regenerated from the source and run on every rank
+   with MPI's bcast/gather: for all n >= 2, all task dictionaries and all per-rank outcomes, rank 0
+   hands exactly one value to backend_write_file - the list [out 0; ...; out (n-1)] in rank order -
+   and no other rank writes anything *)
+Theorem C18_file_mode_gather_order :
+  forall n app loaded (out : nat -> pyval),
+    2 <= n ->
+    (forall r, r < n -> app r loaded = Ok (out r)) ->
+    file_par file_rank n app loaded
+    = Ok (List.map (fun r => VTuple [VList (if Nat.eqb r 0 then [VList (List.map out (ranks n))] else [])]) (ranks n)).
+Proof. exact file_par_call. Qed.
+Print Assumptions C18_file_mode_gather_order.
+
+(* the function raises on rank 0: nothing is handed to backend_write_file *)
+Theorem C18_file_mode_raise_writes_nothing :
+  forall n app loaded e, 1 <= n -> app 0 loaded = Err e -> file_par file_rank n app loaded = Err e.
+Proof. exact file_par_raises. Qed.
+Print Assumptions C18_file_mode_raise_writes_nothing.
+
+(* the serial file worker (cache/backend.py:backend_execute_task_in_file, regenerated): exactly one
+   write, of exactly the function's value; none when the function raises *)
+Theorem C18_file_mode_serial_one_write :
+  forall apply loaded v, apply VNone loaded = Ok v -> file_serial apply loaded = Ok (VTuple [VList [v]]).
+Proof. exact file_serial_ok. Qed.
+Print Assumptions C18_file_mode_serial_one_write.
+
+Theorem C18_file_mode_serial_raise_writes_nothing :
+  forall apply loaded e, apply VNone loaded = Err e -> file_serial apply loaded = Err e.
+Proof. exact file_serial_raises. Qed.
+Print Assumptions C18_file_mode_serial_raise_writes_nothing.
+
+Example C18_file_example :
+  file_par file_rank 3 (fun r _ => Ok (VInt (Z.of_nat r))) VNone
+  = Ok [VTuple [VList [VList [VInt 0; VInt 1; VInt 2]]]; VTuple [VList []]; VTuple [VList []]].
+Proof. vm_compute. reflexivity. Qed.
 
 Example C18_example :
   par_step wstep_rank 3 (fun r _ _ => Ok (VInt (Z.of_nat r))) (fun _ => VNone) (to_py (RCall VNone VNone VNone))
